@@ -14,12 +14,21 @@ func (m *Machine) unop(fr *frame, in *ssa.UnOp) value {
 	x := m.get(fr, in.X)
 	switch in.Op {
 	case token.MUL: // load
+		if r, ok := x.(*symRef); ok {
+			return m.symLoad(r)
+		}
 		p := x.(*value)
 		if p == nil {
 			panic(goPanic{"nil pointer dereference (load) in " + fr.fn.String()})
 		}
 		if m.DetectRaces {
 			m.raceAccess(p, false, site(fr, in))
+		}
+		if t, ok := (*p).(*term.Term); ok && t.W == 8 {
+			// a load wider than the byte cell: *(*uintN)(unsafe.Pointer(&b[i])), little endian
+			if bt := basicOf(in.Type()); bt != nil && bt.Info()&types.IsInteger != 0 && intWidth(bt) > 8 {
+				return m.wideLoad(p, intWidth(bt)/8, fr)
+			}
 		}
 		return copyVal(*p)
 	case token.ARROW:
@@ -399,11 +408,91 @@ func (m *Machine) idx(fr *frame, v ssa.Value, n int) int {
 	return m.concretize(t, 0, n-1)
 }
 
+// Symbolic-index access to a scalar slice (read-over-write expansion): once a slice has
+// been written at a symbolic index its accesses go through a store log; a load is
+// ite(idx==i_K, v_K, ... ite(idx==i_1, v_1, base[idx])).
+type symStoreRec struct {
+	idx *term.Term
+	val *term.Term
+}
+
+type symArr struct {
+	base []value
+	log  []symStoreRec
+}
+
+type symRef struct {
+	arr *symArr
+	idx *term.Term
+}
+
+func (m *Machine) symLoad(r *symRef) value {
+	a := r.arr
+	var acc *term.Term
+	if c, ok := r.idx.ConstVal(); ok {
+		acc = a.base[int(c)].(*term.Term)
+	} else {
+		uniform := true
+		for _, b := range a.base[1:] {
+			if b != a.base[0] {
+				uniform = false
+				break
+			}
+		}
+		acc = a.base[len(a.base)-1].(*term.Term)
+		if !uniform {
+			for j := len(a.base) - 2; j >= 0; j-- {
+				acc = m.st.Ite(m.st.Eq(r.idx, m.st.BV(64, uint64(j))), a.base[j].(*term.Term), acc)
+			}
+		}
+	}
+	for _, rec := range a.log {
+		acc = m.st.Ite(m.st.Eq(r.idx, rec.idx), rec.val, acc)
+	}
+	return acc
+}
+
+func (m *Machine) symStore(r *symRef, v *term.Term) {
+	a := r.arr
+	if c, ok := r.idx.ConstVal(); ok && len(a.log) == 0 {
+		a.base[int(c)] = v
+		return
+	}
+	a.log = append(a.log, symStoreRec{r.idx, v})
+}
+
 func (m *Machine) indexAddr(fr *frame, in *ssa.IndexAddr) value {
 	x := m.get(fr, in.X)
 	switch xv := x.(type) {
 	case []value:
-		return &xv[m.idx(fr, in.Index, len(xv))]
+		if m.SymIndex && len(xv) > 0 {
+			if t, ok := m.get(fr, in.Index).(*term.Term); ok {
+				arr := m.symArrs[&xv[0]]
+				if _, scalar := xv[0].(*term.Term); scalar && (arr != nil || !t.IsConst()) {
+					if t.W != 64 {
+						t = m.st.Zext(t, 64)
+					}
+					inRange := m.st.And(m.st.Sle(m.st.BV(64, 0), t), m.st.Slt(t, m.st.BV(64, uint64(len(xv)))))
+					if !m.branch(inRange) {
+						panic(goPanic{fmt.Sprintf("index out of range (symbolic) with length %d in %s", len(xv), fr.fn)})
+					}
+					if arr == nil {
+						if m.symArrs == nil {
+							m.symArrs = map[*value]*symArr{}
+						}
+						arr = &symArr{base: xv}
+						m.symArrs[&xv[0]] = arr
+					}
+					return &symRef{arr: arr, idx: t}
+				}
+			}
+		}
+		i := m.idx(fr, in.Index, len(xv))
+		p := &xv[i]
+		if bt := basicOf(in.X.Type().Underlying().(*types.Slice).Elem()); bt != nil && bt.Kind() == types.Uint8 {
+			m.noteOrigin(p, xv, i)
+		}
+		return p
 	case *value:
 		if xv == nil {
 			panic(goPanic{"nil pointer dereference (IndexAddr)"})
@@ -559,4 +648,31 @@ func (it *iter) next(m *Machine) value {
 	i := it.pos
 	it.pos++
 	return tuple{m.st.True, it.keys[i], it.vals[i]}
+}
+
+type origin struct {
+	s []value
+	i int
+}
+
+func (m *Machine) noteOrigin(p *value, s []value, i int) {
+	if m.origins == nil {
+		m.origins = map[*value]origin{}
+	}
+	m.origins[p] = origin{s, i}
+}
+
+func (m *Machine) wideLoad(p *value, n int, fr *frame) value {
+	o, ok := m.origins[p]
+	if !ok {
+		panic("wide load from a byte cell of unknown origin in " + fr.fn.String())
+	}
+	if o.i+n > len(o.s) {
+		panic(goPanic{"unsafe wide load past the end of the slice in " + fr.fn.String()})
+	}
+	r := o.s[o.i].(*term.Term)
+	for k := 1; k < n; k++ {
+		r = m.st.Concat(o.s[o.i+k].(*term.Term), r)
+	}
+	return r
 }
